@@ -25,9 +25,9 @@ Scalars ==
   IF Profile = "tiny" THEN {IntV("1"), StrV("a")}
   ELSE IF Profile = "strings"
   THEN {StrV("a"), StrV("ab"), StrV(""), StrV("42"), StrV("1.5"), StrV("-3e2"),
-        StrV("a%00b"), StrV("%80%FF"), IntV("7")}
+        StrV("a%00b"), StrV("%80%FF"), IntV("7"), LnkV("a"), LnkV("42")}
   ELSE {Null, BoolV(TRUE), IntV("1"), IntV("1099511627776"), FltV("1.5"),
-        FltV("0.1"), StrV("a"), StrV("b"), RawV("[7]")}
+        FltV("0.1"), StrV("a"), StrV("b"), RawV("[7]"), LnkV("a")}
 
 Steps == {KeyStep(k) : k \in Keys} \cup {IdxStep(i) : i \in 0..MaxIdx}
 
@@ -113,7 +113,7 @@ Emit ==
   ELSE TRUE
 
 TypeOK ==
-  /\ \A d \in DocIds : docs[d].root.t \in {"n", "b", "i", "f", "s", "r", "a", "o"}
+  /\ \A d \in DocIds : docs[d].root.t \in {"n", "b", "i", "f", "s", "l", "r", "a", "o"}
   /\ \A r \in RefIds : refs[r].st \in {"unbound", "live", "dead"}
 
 Inv ==
